@@ -457,7 +457,31 @@ def run_c19(tier, seed, replay=None):
         w = a + b if rel == "plusz" else a * b
         solver = rnd.choice([["rel", rel, a, b, "t"], ["rel", rel, a, "t", w], ["rel", rel, "t", a, (b + a if rel == "plusz" else b * a)]])
         goals = rnd.choice([[pend, alias, solver], [alias, pend, solver], [pend, alias, solver]])
+        if rnd.random() < 0.4:
+            # ... or the alias is simply bound by == afterwards (no constraint does the binding)
+            goals = [pend, alias, ["eq", "t", rnd.randint(-3, 3)]]
         cases.append(mk_case([], ["q", "r", "t"], goals, zalias=True, mode="bag_terms"))
+    # a tree disequality waiting on the operand a constraint solves (each operand position), and chains in which the solving
+    # constraint is woken by a later unification while another constraint waits on the solved operand
+    for _ in range(300 if tier == "quick" else 3000):
+        a, b = rnd.randint(-3, 3), rnd.randint(-3, 3)
+        rel = rnd.choice(["plusz", "plusz", "timesz"])
+        if rel == "timesz" and a == 0:
+            a = 2
+        w = a + b if rel == "plusz" else a * b
+        solver = rnd.choice([["rel", rel, a, "q", w], ["rel", rel, "q", a, (b + a if rel == "plusz" else b * a)], ["rel", rel, a, b, "q"]])
+        form = rnd.random()
+        if form < 0.5:
+            ne = ["neq", "q", rnd.choice([b, b, w, b + 1])]
+            goals = [ne, solver] if rnd.random() < 0.7 else [solver, ne]
+        else:
+            # the known operand arrives later, by unification
+            late = ["rel", rel, a, "q", "t"] if rnd.random() < 0.6 else ["rel", rel, "q", a, "t"]
+            waiting = rnd.choice([["rel", "plusz", "q", 1, "r"], ["rel", "timesz", "q", 2, "r"], ["neq", "q", b]])
+            goals = [waiting, late, ["eq", "t", w if late[2] == a else (b + a if rel == "plusz" else b * a)]]
+            if rnd.random() < 0.3:
+                goals = [late, waiting, goals[2]]
+        cases.append(mk_case([], ["q", "r", "t"], goals, zchain=True, mode="bag_terms"))
 
     def oracle(cs, impl, model):
         fails = []
